@@ -232,6 +232,11 @@ containment("_messages:_unpack_search_request", options=_PO, witness=_CH, witnes
                      "result.size_limit == tc(content_of(v3))", "result.time_limit == tc(content_of(v4))",
                      # BOOLEAN: FALSE is the octet 00, TRUE any other octet (X.690 8.2.2)
                      "implies(len(content_of(v5)) == 1, result.types_only == (content_of(v5)[0] != 0))",
+                     # filter Filter: the seventh element selects the filter class by its context tag number (v6 = where it starts)
+                     "id_class(v6) == 2"] + ["isinstance(result.filter, %s) == (id_number(v6) == %d)" % (k_, n_) for k_, n_ in
+                                             (("FilterAnd", 0), ("FilterOr", 1), ("FilterNot", 2), ("FilterEquality", 3), ("FilterSubstrings", 4), ("FilterGreaterOrEqual", 5),
+                                              ("FilterLessOrEqual", 6), ("FilterPresent", 7), ("FilterApproxMatch", 8), ("FilterExtensibleMatch", 9))] + [
+                     "implies(id_number(v6) == 7, result.filter.attribute == unutf8(content_of(v6)))",
                      # attributes AttributeSelection: the SEQUENCE that follows the filter (v7 = the view after the filter)
                      "id_class(v7) == 0", "id_number(v7) == 16"] + _list_post("result.attributes", "content_of(v7)", _STR_ELEM))
 
@@ -319,3 +324,8 @@ containment("_filter:FilterSubstrings.unpack", options=_FO,
                                       "opt_none(substrings_reader._view, 2, final is None) == opt_none(v0, 2, True)", "opt_val(substrings_reader._view, 2, or_empty(final)) == opt_val(v0, 2, empty())"],
                            decreases="len(substrings_reader._view)")},
             exit_hints=["v0 == %s" % _SUBS])
+
+# not [2] Filter: the inner filter's class is selected by the tag number of the (single) element inside
+containment("_filter:FilterNot.unpack", options=_FO,
+            ensures=[_PROGRESS, "id_class(%s) == 2" % _V, "id_number(%s) == 2" % _V, "reader._view == rest_of(%s)" % _V, "id_class(%s) == 2" % _C] +
+                    ["isinstance(result.filter, %s) == (id_number(%s) == %d)" % (k_, _C, n_) for k_, n_ in _FCH])
